@@ -176,8 +176,11 @@
 #define F_FIN(x) (!F_NAN(x) && (x) != __builtin_inf() && (x) != -__builtin_inf())
 #define CORNERF_mulf(r, a, b) ((F_NAN(a) || (b) != 1.0 || spec_f64_bits(r) == spec_f64_bits(a)) && (F_NAN(b) || (a) != 1.0 || spec_f64_bits(r) == spec_f64_bits(b)) && \
                                (F_NAN(r) || F_SIGN(r) == (F_SIGN(a) ^ F_SIGN(b))) && (!F_FIN(b) || (a) != 0.0 || (r) == 0.0))
-#define CORNERF_divf(r, a, b) ((F_NAN(a) || (b) != 1.0 || spec_f64_bits(r) == spec_f64_bits(a)) && (F_NAN(r) || F_SIGN(r) == (F_SIGN(a) ^ F_SIGN(b))) && \
-                               (!F_FIN(a) || (a) == 0.0 || (a) != (b) || (r) == 1.0) && (!F_FIN(a) || F_NAN(b) || F_FIN(b) || (r) == 0.0))
+/* (b == 1.0 => r == a  and  a / a == 1.0  need the divider itself: > 150 s; left to the bounded value obligation) */
+#define CORNERF_divf(r, a, b) ((F_NAN(r) || F_SIGN(r) == (F_SIGN(a) ^ F_SIGN(b))) && (!F_FIN(a) || F_NAN(b) || F_FIN(b) || (r) == 0.0) /* x / inf */ && \
+                               (F_NAN(a) || F_FIN(a) || !F_FIN(b) || (F_NAN(r) == 0 && !F_FIN(r))) /* inf / y */ && \
+                               (!F_FIN(a) || (a) == 0.0 || (b) != 0.0 || (!F_NAN(r) && !F_FIN(r))) /* x / 0 */ && \
+                               ((a) != 0.0 || F_NAN(b) || (b) == 0.0 || (r) == 0.0) /* 0 / y */)
 #define CORNERF_addf(r, a, b) 1
 #define CORNERF_subf(r, a, b) 1
 #define POSTF(r, a, b) TMPL_CAT(CORNERF_, VERIF_TMPL)(r, a, b)
